@@ -17,13 +17,14 @@ from numpy.polynomial import legendre as L
 
 from gridrv.monitors import transform1d as mon
 from gridrv.oracles import numdiff as nd
+from gridrv.oracles import signatures_c0304 as sig
 from gridrv.props import c03
 
 PROP = "C04"
 TITLE = "Transforming a 1D grid is a faithful change of variables"
-REQUIRED_HOOKS = ["BaseTransform.transform_1d_grid", "decided:weights-magnitude", "decided:weights-sign", "decided:domain-image", "decided:sum-identity", "decided:points-dtype", "decided:sequence-repeat"]
+REQUIRED_HOOKS = ["BaseTransform.transform_1d_grid", "decided:weights-magnitude", "decided:weights-sign", "decided:domain-image", "decided:sum-identity", "decided:points-dtype", "decided:sequence-repeat", "decided:construction"]
 FAM_TF = [c03.CLS[k] for k in c03.KINDS] + ["InverseRTransform"]
-REQUIRED_FAMILIES = FAM_TF + ["chain", "subdomain", "gl-linear-exactness", "exp-integral", "incidental", "pinned", "sequence", "dtype-grid", "boundary", "large-n"]
+REQUIRED_FAMILIES = FAM_TF + ["chain", "subdomain", "gl-linear-exactness", "exp-integral", "incidental", "pinned", "sequence", "dtype-grid", "boundary", "large-n", "construction"]
 BUDGET = {"quick": 900, "thorough": 7200}  # per-worker seconds; expected on 16 idle cores: quick ~10 s, thorough ~3-4 min
 MAX_DISCARD_FRACTION = 0.02
 TOL_EXPINT = 1e-3  # |beta*I - 1|; largest quadrature error seen (GL n=60/120, beta*R in [2,4]) 2.8e-6; the sign defect gives 2
@@ -169,6 +170,12 @@ def cases(tier, seed):
         variants = [p for k, p in _tf_grid([kind])]
         for t, n in enumerate((200, 500, 1000) if tier == "thorough" else ((200, 500, 1000)[seed % 3],)):
             out.append(("large-n", {"rule": "UniformInteger", "n": n, "tf": {"kind": kind, **variants[(seed + t) % len(variants)]}}, 4.0 + n / 100))
+    # (e) positional (documented order, literal table) vs keyword construction: every transform class, both flag values,
+    #     b given / learned; every quadrature class with all its documented parameters
+    for kind, p in c03.construction_sets():
+        out.append(("construction", {"tf": {"kind": kind, **p}}, 1.0))
+    for q in sorted(sig.QUADRATURE_ORDER):
+        out.append(("construction", {"quad": q}, 1.0))
     for kind, p in c03._boundary():
         rules = ("GaussLegendre:8", "Trapezoidal:5", "int64-simpson") if kind in KINDS_M11 else ("UniformInteger:6", "GaussLaguerre:6")
         for r in rules:
@@ -255,6 +262,8 @@ def build_tf(ctx, tfp, inv, rule_grid):
         fixed.setdefault("rmax", p["rmin"] + max(base + 0.1, lo_size) + float(10 ** rng.uniform(-1, 2.5)))
     if fixed:
         p["fixed"] = fixed
+    if "pos" not in p:
+        p["pos"] = bool(rng.integers(2))  # every second transform object is constructed positionally (documented order)
     I = c03.build(p, rng)
     tf = rt.InverseRTransform(I.tf) if inv else I.tf
     return I, tf
@@ -507,6 +516,8 @@ def run_case(ctx, family, params):
         new, o = transform_and_check(ctx, tf, g, "boundary")
         if o is None or not o["decided"].any():
             ctx.trivial()
+    elif family == "construction":
+        _construction(ctx, params)
     elif family == "pinned":
         _pinned(ctx, params["what"])
     else:
@@ -600,6 +611,55 @@ def _sequence(ctx, params):
     ctx.count("sequence-calls", ncalls)
     if ncalls < 2:
         ctx.trivial()
+
+
+def _construction(ctx, params):
+    """Positional vs keyword construction; transforms: attributes, outputs and the transformed grid; quadrature classes: the grid."""
+    import grid.onedgrid as og
+    import grid.rtransform as rt
+    from grid.basegrid import OneDGrid
+
+    rng = ctx.rng
+    if "quad" in params:
+        name = params["quad"]
+        order = sig.QUADRATURE_ORDER[name]
+        n = int(rng.integers(3, 12)) | 1
+        vals = {"npoints": n, "alpha": float(rng.choice([0.5, 1.0, 2.0])), "delta": float(rng.uniform(0.05, 0.3)), "d": int(rng.choice([1, 5, 9])), "rho": float(rng.uniform(1.05, 1.6)), "h": float(rng.uniform(0.05, 0.4)), "quadrature": og.FejerFirst}
+        if name == "OneDGrid":
+            pts = np.sort(rng.uniform(-0.9, 0.9, n))
+            vals = {"points": pts, "weights": rng.uniform(0.1, 1, n), "domain": (-1, 1)}
+            cls = OneDGrid
+        else:
+            cls = getattr(og, name)
+        gp, gk = sig.construct_both(ctx, cls, order, vals, name)
+        if gp is not None and gk is not None:
+            sig.compare_grids(ctx, name, gp, gk)
+            if len(order) > 1 and name != "OneDGrid":
+                # the extra parameter really arrived: a second value gives another grid
+                alt = dict(vals)
+                key = [k for k in order if k not in ("npoints", "quadrature")][0]
+                alt[key] = {"alpha": vals["alpha"] + 1.5, "delta": vals["delta"] * 1.7, "d": 5 if vals["d"] != 5 else 9, "rho": vals["rho"] + 0.3, "h": vals["h"] * 1.6}[key]
+                g2 = sig.positional(cls, order, alt)
+                ctx.check("positional-binds-documented-order", name, not (sig._same_array(g2.points, gp.points) and sig._same_array(g2.weights, gp.weights)), sig=f"parameter-{key}-has-no-effect-when-passed-positionally")
+        return
+    tfp = params["tf"]
+    dom_m11 = tfp["kind"] in KINDS_M11
+    g = og.GaussLegendre(9) if dom_m11 else og.UniformInteger(7)
+    I, _ = build_tf(ctx, {**tfp, "pos": False}, False, g)
+    cname = c03.CLS[I.kind]
+    cls = getattr(rt, cname)
+    order = sig.TRANSFORM_ORDER[cname]
+    pos, kw = sig.construct_both(ctx, cls, order, I.args, cname)
+    if pos is None or kw is None:
+        return
+    x = np.asarray(g.points, dtype=float)
+    sig.compare_transforms(ctx, cname, pos, kw, sig.TRANSFORM_ATTRS[cname], I.args, x, methods=("transform", "deriv", "inverse"))
+    res = {}
+    with ctx.guard("positional-equals-keyword", cname + ".transform_1d_grid"):
+        res["k"] = kw.transform_1d_grid(g)
+        res["p"] = pos.transform_1d_grid(g)
+    if "p" in res:
+        sig.compare_grids(ctx, cname + ".transform_1d_grid", res["p"], res["k"])
 
 
 def _pinned(ctx, what):
